@@ -126,8 +126,181 @@ def _has_engine(prop: str) -> bool:
         return False
 
 
+def unit(argv: List[str]) -> int:
+    """Small assertions about the machinery itself (chooser replay semantics, schedule
+    encoding, cooperative locks and timers, the id() model, the S3 fake's rules)."""
+    import threading
+
+    from . import bootstrap
+
+    bootstrap.boot()
+    from . import fakes
+    from . import kernel as K
+    from .c19 import SimIds
+
+    n = 0
+
+    def ok(cond: bool, what: str) -> None:
+        nonlocal n
+        n += 1
+        if not cond:
+            raise AssertionError(what)
+
+    # schedule encoding round trip
+    ev = [("run", "T0")] * 3 + [("run", "T1")] + [("a", 0, 1)] + [("run", "T0")]
+    ok(core.expand_schedule(core.compress_schedule(ev)) == ev, "RLE round trip")
+    # skip semantics: entries that are not enabled are skipped, exhausted list -> canonical first
+    ch = core.Chooser(None, [[1, "x"], [1, "b"], [2, "a"]], [])
+    ok(ch.choose([("a",), ("b",)]) == ("b",), "earliest enabled unconsumed entry")
+    ok(ch.choose([("a",), ("c",)]) == ("a",), "next entry")
+    ok(ch.choose([("c",), ("a",)]) == ("a",), "duplicate entries are consumed one by one")
+    ok(ch.choose([("c",), ("d",)]) == ("c",), "nothing enabled in the list: canonical first")
+    # generate mode records what replay mode reproduces
+    g = core.Chooser(random.Random(5), policy={"kind": "uniform"})
+    picks = [g.choose([("e", i) for i in range(4)]) for _ in range(20)]
+    r = core.Chooser(None, core.compress_schedule(g.schedule_out), [])
+    ok([r.choose([("e", i) for i in range(4)]) for _ in range(20)] == picks, "replay reproduces generate")
+    # faults: repeated decision points are distinct decisions
+    g = core.Chooser(random.Random(1))
+    fired = [g.fault("transport", ("edge", 1), 0.5) for _ in range(12)]
+    r = core.Chooser(None, [], g.faults_out)
+    ok([r.fault("transport", ("edge", 1), 0.5) for _ in range(12)] == fired, "fault occurrences replay")
+    # cooperative lock + baton kernel: mutual exclusion, blocked threads are not runnable, deadlock detection
+    k = K.Kernel()
+    K.activate(k)
+    lock = K.CoopLock(False)
+    trace: List[str] = []
+
+    def worker(name: str):
+        with lock:
+            trace.append(name + "+")
+            K.seam(("inside", name))
+            trace.append(name + "-")
+
+    try:
+        k.spawn("A", lambda: worker("A"))
+        k.spawn("B", lambda: worker("B"))
+        k.step("A")  # A takes the lock and parks at the seam
+        k.step("B")  # B blocks on the lock
+        ok(k.runnable() == ["A"], "blocked thread is not runnable")
+        K.run_threads(k, core.Chooser(random.Random(0)))
+        ok(trace == ["A+", "A-", "B+", "B-"], f"mutual exclusion {trace}")
+        l1, l2 = K.CoopLock(False), K.CoopLock(False)
+
+        def ab():
+            with l1:
+                K.seam("x")
+                with l2:
+                    pass
+
+        def ba():
+            with l2:
+                K.seam("x")
+                with l1:
+                    pass
+
+        k.spawn("P", ab)
+        k.spawn("Q", ba)
+        k.step("P")
+        k.step("Q")
+        try:
+            K.run_threads(k, core.Chooser(random.Random(0)))
+            ok(False, "deadlock not detected")
+        except K.Deadlock:
+            ok(True, "deadlock detected")
+    finally:
+        k.shutdown()
+        K.activate(None)
+    ok(threading.active_count() <= 3, "simulated threads are unwound")
+    # virtual-time timers: Variable.get(timeout) either sees a later set or times out, as the scheduler decides
+    for first in ("timeout", "set"):
+        k = K.Kernel()
+        K.activate(k)
+        cl = fakes.FakeCluster()
+        cl.default_client = fakes.FakeClient(cl)
+        fakes.CLUSTER = cl
+        out: Dict[str, Any] = {}
+
+        def getter():
+            try:
+                out["v"] = fakes.FakeVariable("v").get(0.1)
+            except TimeoutError:
+                out["v"] = "timeout"
+
+        try:
+            k.spawn("G", getter)
+            k.spawn("S", lambda: fakes.FakeVariable("v").set("U1"))
+            k.step("G")  # at the var.get seam
+            k.step("G")  # unset: waits with a deadline
+            ok(k.timers() == ["G"] and k.runnable() == ["S"], "waiter has a timer and is not runnable")
+            if first == "timeout":
+                k.fire_timeout("G")
+                ok(k.now == 0.1, "virtual clock advanced to the deadline")
+            K.run_threads(k, core.Chooser(None, [], []))
+            ok(out["v"] == ("timeout" if first == "timeout" else "U1"), f"get outcome {out}")
+        finally:
+            k.shutdown()
+            K.activate(None)
+            fakes.CLUSTER = None
+
+    # the id() model: unique among live objects, reuse only of dead addresses, only when the chooser says so
+    class H:  # minimal stand-in for a History
+        def __init__(self, rng):
+            self.ch = core.Chooser(rng)
+            self.steps_done = 0
+            self.probes = {"id_reuse_observed": 0, "orphan_pyproj_object_died": 0}
+
+    class Obj:
+        pass
+
+    h = H(random.Random(3))
+    sim = SimIds(h)
+    objs = [Obj() for _ in range(50)]
+    ids = [sim(o) for o in objs]
+    ok(len(set(ids)) == 50 and [sim(o) for o in objs] == ids, "stable and unique while alive")
+    dead = set(ids[:25])
+    del objs[:25]
+    fresh = [Obj() for _ in range(60)]
+    ids2 = [sim(o) for o in fresh]
+    live = ids[25:] + ids2
+    ok(len(set(live)) == len(live), "never two live objects with one address")
+    ok(set(ids2) & dead and h.probes["id_reuse_observed"] == len(set(ids2) & dead), "dead addresses are reused, and counted")
+    ok(not (set(ids2) - dead) & set(ids), "only dead addresses are reused")
+    # S3 fake rules
+    s3 = fakes.FakeS3(min_part_size=5)
+    u = s3.create_multipart_upload(Bucket="b", Key="k")["UploadId"]
+    e1 = s3.upload_part(PartNumber=1, Body=b"12345", Bucket="b", Key="k", UploadId=u)["ETag"]
+    e2 = s3.upload_part(PartNumber=2, Body=b"6", Bucket="b", Key="k", UploadId=u)["ETag"]
+    for bad, what in (
+        (lambda: s3.upload_part(PartNumber=1, Body=b"x", Bucket="b", Key="other", UploadId=u), "foreign key"),
+        (lambda: s3.upload_part(PartNumber=10001, Body=b"x", Bucket="b", Key="k", UploadId=u), "part number range"),
+        (lambda: s3.complete_multipart_upload(Bucket="b", Key="k", UploadId=u, MultipartUpload={"Parts": [{"PartNumber": 2, "ETag": e2}, {"PartNumber": 1, "ETag": e1}]}), "part order"),
+        (lambda: s3.complete_multipart_upload(Bucket="b", Key="k", UploadId=u, MultipartUpload={"Parts": [{"PartNumber": 1, "ETag": e2}]}), "etag"),
+        (lambda: s3.complete_multipart_upload(Bucket="b", Key="k", UploadId="U99", MultipartUpload={"Parts": []}), "unknown upload"),
+    ):
+        try:
+            bad()
+            ok(False, f"S3 fake accepted: {what}")
+        except core.ServiceRejection:
+            ok(True, what)
+    s3.complete_multipart_upload(Bucket="b", Key="k", UploadId=u, MultipartUpload={"Parts": [{"PartNumber": 1, "ETag": e1}, {"PartNumber": 2, "ETag": e2}]})
+    ok(s3.objects[("b", "k")] == b"123456", "object is the concatenation in part order")
+    u2 = s3.create_multipart_upload(Bucket="b", Key="k2")["UploadId"]
+    s3.upload_part(PartNumber=1, Body=b"1", Bucket="b", Key="k2", UploadId=u2)
+    e = s3.upload_part(PartNumber=2, Body=b"22222", Bucket="b", Key="k2", UploadId=u2)["ETag"]
+    try:
+        s3.complete_multipart_upload(Bucket="b", Key="k2", UploadId=u2, MultipartUpload={"Parts": [{"PartNumber": 1, "ETag": fakes.FakeS3._etag(1, b"1")}, {"PartNumber": 2, "ETag": e}]})
+        ok(False, "EntityTooSmall not enforced")
+    except core.ServiceRejection:
+        ok(True, "EntityTooSmall")
+    print(f"selftest-unit: OK - {n} assertions")
+    return 0
+
+
 def main(argv: List[str]) -> int:
     cmd = argv[0]
+    if cmd == "selftest-unit":
+        return unit(argv[1:])
     if cmd == "selftest-child":
         return _child(argv[1:])
     if cmd == "selftest-determinism":
